@@ -1,0 +1,190 @@
+//go:build verif
+
+package verifhook
+
+import (
+	"context"
+	"errors"
+	"fmt"
+	"math/rand"
+	"strings"
+	"sync"
+	"sync/atomic"
+	"time"
+
+	"mvdan.cc/sh/v3/interp"
+
+	taskerrors "github.com/go-task/task/v3/errors"
+)
+
+// Event is one entry of the executor's event log: an action of one activation
+// of RunTask. Entries are appended under one mutex, so the log is a
+// linearisation of the actions; "giving up" actions (release, cancel) are logged
+// before they take effect and "obtaining" actions (acquire, wake) after, so the
+// log order is always a possible real order.
+type Event struct {
+	Act  int64
+	Kind string
+	Args []string
+}
+
+type actKey struct{}
+type childKey struct{}
+
+type activation struct {
+	id       int64
+	deferred bool // running inside runDeferred (fresh context)
+}
+
+type childInfo struct {
+	parent   int64
+	kind     string
+	idx      int
+	deferred bool
+}
+
+var (
+	mu      sync.Mutex
+	events  []Event
+	nextID  int64
+	byCall  sync.Map // *Call → *activation
+	tops    sync.Map // *Call → index among the calls handed to Run
+	jitter  int64    // max random delay (µs) injected at every hook point
+	jitterR *rand.Rand
+	jmu     sync.Mutex
+)
+
+// Reset clears the log and sets the schedule-perturbation jitter.
+func Reset(seed int64, maxDelayMicros int64) {
+	mu.Lock()
+	events = nil
+	atomic.StoreInt64(&nextID, 0)
+	mu.Unlock()
+	byCall = sync.Map{}
+	tops = sync.Map{}
+	jmu.Lock()
+	jitter = maxDelayMicros
+	jitterR = rand.New(rand.NewSource(seed))
+	jmu.Unlock()
+}
+
+// RegisterTop tells the hook which *Call values are the top-level calls of Run.
+func RegisterTop(call any, k int) { tops.Store(call, k) }
+
+// Events returns a copy of the log.
+func Events() []Event {
+	mu.Lock()
+	defer mu.Unlock()
+	out := make([]Event, len(events))
+	copy(out, events)
+	return out
+}
+
+func perturb() {
+	jmu.Lock()
+	j := jitter
+	var d int64
+	if j > 0 {
+		d = jitterR.Int63n(j + 1)
+	}
+	jmu.Unlock()
+	if d > 0 {
+		time.Sleep(time.Duration(d) * time.Microsecond)
+	}
+}
+
+func record(act int64, kind string, args ...string) {
+	mu.Lock()
+	events = append(events, Event{Act: act, Kind: kind, Args: args})
+	mu.Unlock()
+}
+
+type Counter struct{ n int64 }
+
+func (c *Counter) Next() int { return int(atomic.AddInt64(&c.n, 1) - 1) }
+
+// Enter is called first thing in RunTask.
+func Enter(ctx context.Context, call any, task string) context.Context {
+	perturb()
+	id := atomic.AddInt64(&nextID, 1)
+	a := &activation{id: id}
+	byCall.Store(call, a)
+	kind, parent, idx := "top", int64(0), -1
+	if ci, ok := ctx.Value(childKey{}).(*childInfo); ok && ci != nil {
+		kind, parent, idx = ci.kind, ci.parent, ci.idx
+		if ci.deferred {
+			kind = "d" + kind
+		}
+	} else if k, ok := tops.Load(call); ok {
+		idx = k.(int)
+	}
+	record(id, "enter", kind, fmt.Sprint(parent), fmt.Sprint(idx), task)
+	ctx = context.WithValue(ctx, actKey{}, a)
+	return context.WithValue(ctx, childKey{}, (*childInfo)(nil))
+}
+
+// Child marks the context handed to the next RunTask as that of child `idx`
+// (dependency index or command index) of the current activation.
+func Child(ctx context.Context, kind string, idx int) context.Context {
+	a, _ := ctx.Value(actKey{}).(*activation)
+	if a == nil {
+		return ctx
+	}
+	return context.WithValue(ctx, childKey{}, &childInfo{parent: a.id, kind: kind, idx: idx, deferred: a.deferred})
+}
+
+// Adopt carries the activation identity of `call` into the fresh context
+// runDeferred creates, marking it as deferred.
+func Adopt(ctx context.Context, call any) context.Context {
+	if v, ok := byCall.Load(call); ok {
+		a := v.(*activation)
+		return context.WithValue(ctx, actKey{}, &activation{id: a.id, deferred: true})
+	}
+	return ctx
+}
+
+// Ev appends an event of the current activation. Events that give something up
+// must be called before the action, events that obtain something after it.
+func Ev(ctx context.Context, kind string, args ...any) {
+	a, _ := ctx.Value(actKey{}).(*activation)
+	if a == nil {
+		return
+	}
+	before := kind == "release" || kind == "wRelease" || kind == "depsRelease" || kind == "callRelease" || kind == "execDone" || kind == "exit"
+	if !before {
+		perturb()
+	}
+	ss := make([]string, 0, len(args)+1)
+	if a.deferred && (kind == "cmdStart" || kind == "cmdEnd") {
+		ss = append(ss, "deferred")
+	}
+	for _, x := range args {
+		ss = append(ss, fmt.Sprint(x))
+	}
+	record(a.id, kind, ss...)
+	if before {
+		perturb()
+	}
+}
+
+// ErrClass maps an error to the classes the executor and main distinguish.
+func ErrClass(err error) string {
+	if err == nil {
+		return "ok"
+	}
+	var re *taskerrors.TaskRunError
+	if e, ok := err.(*taskerrors.TaskRunError); ok {
+		re = e
+		return "run(" + ErrClass(re.Err) + ")"
+	}
+	if c, ok := interp.IsExitStatus(err); ok {
+		return fmt.Sprintf("exit:%d", c)
+	}
+	if errors.Is(err, context.Canceled) || errors.Is(err, context.DeadlineExceeded) || strings.Contains(err.Error(), "context canceled") {
+		return "ctx"
+	}
+	if te, ok := err.(taskerrors.TaskError); ok {
+		return fmt.Sprintf("typed:%d", te.Code())
+	}
+	return "generic"
+}
